@@ -239,7 +239,12 @@ class Impl:
         pre_wait = self.joiner_waits_in()
         # the group is awaiting members it has cancelled (its clean-up sweep is under way)
         pre_sweep = any(not t.done() for t in self.group_cancelled)
-        if k == 'S':
+        if k in ('F', 'X', 'Y', 'A') and a[1] not in self.task:
+            # a recorded trace names a member that does not exist on this tree (e.g. a child that
+            # is only spawned when its parent is cancelled, and the parent never was): that is an
+            # observation (the model will disagree), not a reason for the harness to crash
+            self.obs.append(f'missing{a[1]}')
+        elif k == 'S':
             try:
                 self.mk(a[1], a[2], a[3])
             except RuntimeError:
